@@ -1,5 +1,4 @@
--- imports PathCoreDelivered_proof.lean (Probe.CoreDeliv)
-import Probe.CoreDeliv
+import PathCoreDelivered_proof
 /-! C06 `core_delivered` for header, cookie and query parameters. -/
 namespace Codec
 
